@@ -97,9 +97,10 @@ int main(int argc, char** argv) {
     int prof = scen % 8;
     mi_heap_t* h = mi_heap_new();
     nblk = 0; int pending = 0;
+    int band = (prof == 1 && (scen / 8) % 4 == 2);      // blocks 64..127 (and sometimes 192..255) freed: a bitmap word that is entirely free between used ones (seed C12e)
     int lowfull = (prof == 1 && (scen / 8) % 2 == 1);   // the first 70 blocks stay live: a fully used bitmap word on a page with holes
-    size_t fixed = lowfull ? 64 + 16 * prng_below(&g, 20) : 64 + 16 * prng_below(&g, 120);
-    int n = prof == 0 ? 0 : lowfull ? (int)(150 + prng_below(&g, 300)) : (int)(1 + prng_below(&g, prof == 1 ? 500 : 200));
+    size_t fixed = (lowfull || band) ? 64 + 16 * prng_below(&g, 20) : 64 + 16 * prng_below(&g, 120);
+    int n = prof == 0 ? 0 : band ? (int)(260 + prng_below(&g, 200)) : lowfull ? (int)(150 + prng_below(&g, 300)) : (int)(1 + prng_below(&g, prof == 1 ? 500 : 200));
     printf("S %d profile=%d n=%d\n", scen, prof, n);
     for (int i = 0; i < n && nblk < MAXB; i++) {
       size_t sz;
@@ -117,7 +118,9 @@ int main(int argc, char** argv) {
     rf_t* rf = (rf_t*)calloc(1, sizeof(rf_t));
     int fr = prof == 5 ? 100 : (int)prng_below(&g, 90);
     if (lowfull && fr < 5) fr = 5;
-    for (int i = lowfull ? 70 : 0; i < nblk; i++) if ((int)prng_below(&g, 100) < fr) {
+    if (band) { fr = (int)prng_below(&g, 10); int two = (int)prng_below(&g, 2);
+      for (int i = 64; i < nblk && i < 256; i++) if (i < 128 || (two && i >= 192)) { if (blk[i].live) { blk[i].live = 0; mi_free(blk[i].p); } } }
+    for (int i = lowfull ? 70 : band ? 256 : 0; i < nblk; i++) if (blk[i].live && (int)prng_below(&g, 100) < fr) {
       blk[i].live = 0;
       if (prof == 4 && prng_below(&g, 2) == 0) rf->p[rf->n++] = blk[i].p; else mi_free(blk[i].p);
     }
